@@ -285,6 +285,12 @@ func gen(r *simrt.RNG) Workload {
 			switch {
 			case r.Chance(pMissing):
 				t = "zz.p"
+				if r.Intn(3) == 0 {
+					// a missing name that some normalisation (path cleaning, case folding, trimming) would
+					// map onto a member of the set: still a missing name
+					x := names[r.Intn(n)]
+					t = []string{"lib/" + x, "./" + x, "../" + x, x + "/", strings.ToUpper(x), x + " ", " " + x, "/" + x}[r.Intn(8)]
+				}
 			case r.Chance(pSelf):
 				t = names[i]
 			case forward && i+1 < n:
